@@ -309,11 +309,27 @@ def mk_square(rng, mode, n, on_host, be, variant=None, k0=None):
     return {'host': host, 'k0': k0, 'call': ['square', mode, x, be]}
 
 
+def corpus_cases():
+    """minimal inputs of the defect found on the pinned tree (D27); run first on every check.
+    add_mul_wallace compacted the two final rows by skipping empty cells: for n = 2 row 1 has an empty
+    cell between gates from m = 9 on; the product is wrong from m = 11 on (3 * 704 gave 1088)"""
+    rng = random.Random(27)
+    cases = [mk_mul(rng, 'add_mul_wallace', 2, 11, False, False, k0=1),
+             mk_mul(rng, 'add_mul_wallace', 2, 9, False, False, k0=1),
+             mk_mul(rng, 'add_mul_wallace', 2, 12, False, True, k0=1),
+             mk_mul(rng, 'add_mul_wallace', 2, 13, True, False, k0=5),
+             mk_mul(rng, 'add_mul_wallace', 2, 16, False, False, k0=1)]
+    cases.append({'gen': ['gmul', 2, 11, 'WALLACE', False], 'k0': 1})
+    return cases
+
+
 def small_cases(rng, max_w=8, full_w=4, sq_max=12):
     """run inside Coq.  Every public function x every width pair (n, m) <= max_w once (host / endianness drawn at
     random); all four combinations of bare/host x endianness for widths <= full_w; probes: repeated operand
     labels, one label for every bit, both operands the same list, operands that are outputs of the host"""
-    cases = []
+    cases = [c for c in corpus_cases() if 'call' in c]
+    for m in range(9, 21):            # the shapes whose final rows have empty cells between gates (n = 2)
+        cases.append(mk_mul(rng, 'add_mul_wallace', 2, m, rng.random() < 0.3, rng.random() < 0.5))
     for fn in PUBLIC_FNS:
         for n in range(1, max_w + 1):
             for m in range(1, max_w + 1):
@@ -369,7 +385,7 @@ KARA_QUICK = [(17, 17), (18, 18), (19, 19), (20, 20), (21, 21), (20, 3), (35, 35
 KARA_THOROUGH = [(n, n) for n in (22, 23, 24, 34, 36, 38, 39, 40, 42, 47, 64)] + [(18, 1), (1, 20), (25, 18),
                                                                                (40, 21), (37, 36)]
 SQ_QUICK = [47, 48, 49, 50, 53, 54]
-SQ_THOROUGH = [51, 52, 55, 60, 95, 96, 97]
+SQ_THOROUGH = [51, 52, 55, 60, 96]
 
 
 def large_cases(rng, quick=True):
@@ -378,10 +394,10 @@ def large_cases(rng, quick=True):
     pairs = KARA_QUICK if quick else KARA_QUICK + KARA_THOROUGH
     for fn in ('add_mul_karatsuba', 'add_mul_karatsuba_with_efficient_sum'):
         for n, m in pairs:
-            for be in ((False, True) if (n <= 21 or not quick) else (rng.random() < 0.5,)):
+            for be in ((False, True) if n <= 21 else (rng.random() < 0.5,)):
                 cases.append(mk_mul(rng, fn, n, m, False, be, k0=1))
     for n in (SQ_QUICK if quick else SQ_QUICK + SQ_THOROUGH):
-        for be in ((False, True) if n in (48, 49) or not quick else (rng.random() < 0.5,)):
+        for be in ((False, True) if n in (48, 49) else (rng.random() < 0.5,)):
             cases.append(mk_square(rng, 'DEFAULT', n, False, be, k0=1))
     for n in ((31, 47) if quick else (31, 32, 33, 47, 63, 64)):
         cases.append(mk_square(rng, 'POW2_M1', n, False, rng.random() < 0.5, k0=1))
@@ -394,7 +410,7 @@ def large_cases(rng, quick=True):
 
 
 def gen_cases(rng, max_w=5):
-    cases = []
+    cases = [c for c in corpus_cases() if 'gen' in c]
     for mode in MUL_MODES:
         for n in range(1, max_w + 1):
             for m in range(1, max_w + 1):
